@@ -347,11 +347,12 @@ def add_situ_options(cfg, seed, i):
     n = cfg["prob"]["n"]
     if cfg.get("reg") and n >= 2 and g.random() < 0.5:
         up["growing.ndirs_initial"] = int(g.integers(1, n))
-        if g.random() < 0.5:
+        nosafety = bool(g.random() < 0.6)
+        if nosafety:
             up["growing.safety.do_safety_step"] = False
         if g.random() < 0.3:
             up["growing.num_new_dirns_each_iter"] = 1
-        if g.random() < 0.5:
+        if nosafety or g.random() < 0.5:
             # strong L1 term with the start on its kink in some coordinates
             cfg["reg"] = dict(type="l1", lam=float(10.0 ** g.uniform(0.3, 1.5)))
             if cfg.get("lower") is None and not cfg.get("proj"):
